@@ -15,8 +15,8 @@
   xmlbox <rot> <rotation> <box4>     model: LTPage.bbox under extract_text_to_fp(rotation=) -> 4 rationals
   rotate <r>                   norm_rotate                                  -> integer
 
-  object syntax:  atoms i:<int> r:<p/q> n:<name> R:<n> null ; arrays [ a a ] ; flat dictionaries { k a k a } ;
-                  (array elements may also be flat dictionaries) ; dictionary objects << k v k v >>
+  object syntax:  atoms i:<int> r:<p/q> n:<name> R:<n> null ; arrays [ v v ] ; direct dictionaries { k v k v }
+                  (values nest to any depth) ; dictionary objects << k v k v >>
 -/
 import PdfVerif.Spec.PageTree
 
@@ -30,28 +30,30 @@ def parseAtom (s : String) : Option Atom :=
   else if s.startsWith "R:" then Atom.ref <$> (s.drop 2).toString.toNat?
   else none
 
-partial def parseFlat : List String → List (String × Atom) → Option (List (String × Atom) × List String)
-  | "}" :: rest, acc => some (acc.reverse, rest)
-  | k :: t :: rest, acc => match parseAtom t with
-    | some a => parseFlat rest ((k, a) :: acc)
-    | none => none
-  | _, _ => none
+mutual
+  /-- Entries of a direct dictionary up to `}`. -/
+  partial def parseFlat : List String → List (String × Val) → Option (List (String × Val) × List String)
+    | "}" :: rest, acc => some (acc.reverse, rest)
+    | k :: rest, acc => match parseVal rest with
+      | some (v, rest') => parseFlat rest' ((k, v) :: acc)
+      | none => none
+    | _, _ => none
 
-partial def parseElems : List String → List Elem → Option (List Elem × List String)
-  | "]" :: rest, acc => some (acc.reverse, rest)
-  | "{" :: rest, acc => match parseFlat rest [] with
-    | some (kvs, rest') => parseElems rest' (Elem.dict kvs :: acc)
-    | none => none
-  | t :: rest, acc => match parseAtom t with
-    | some a => parseElems rest (Elem.atom a :: acc)
-    | none => none
-  | [], _ => none
+  /-- Elements of an array up to `]`. -/
+  partial def parseElems : List String → List Elem → Option (List Elem × List String)
+    | "]" :: rest, acc => some (acc.reverse, rest)
+    | [], _ => none
+    | ts, acc => match parseVal ts with
+      | some (v, rest') => parseElems rest' (v :: acc)
+      | none => none
 
-def parseVal : List String → Option (Val × List String)
-  | "[" :: rest => (fun r => (Val.arr r.1, r.2)) <$> parseElems rest []
-  | "{" :: rest => (fun r => (Val.dict r.1, r.2)) <$> parseFlat rest []
-  | t :: rest => (fun a => (Val.atom a, rest)) <$> parseAtom t
-  | [] => none
+  /-- One value: atom, `[ … ]`, `{ k v … }` (nested to any depth). -/
+  partial def parseVal : List String → Option (Val × List String)
+    | "[" :: rest => (fun r => (Val.arr r.1, r.2)) <$> parseElems rest []
+    | "{" :: rest => (fun r => (Val.dict r.1, r.2)) <$> parseFlat rest []
+    | t :: rest => (fun a => (Val.atom a, rest)) <$> parseAtom t
+    | [] => none
+end
 
 partial def parseDict : List String → Dict → Option (Dict × List String)
   | ">>" :: rest, acc => some (acc.reverse, rest)
